@@ -60,7 +60,7 @@ def rand_line(r, tags, p_tag=0.6, maxtags=2, user=True, ws=None):
         segs.append(lit(r))
     if user and r.random() < 0.12:
         ut = r.choice(USER_TAGS)
-        segs.append(["tag", ut] if r.random() < 0.5 else ["tag", ut, r.choice(["7", "dflt", "x y", "0"])])
+        segs.append(["tag", ut] if r.random() < 0.5 else ["tag", ut, r.choice(["7", "dflt", "x y", "0", "", "", " ", "a=b", "=", "None"])])
         segs.append(lit(r))
     segs = [s for s in segs if not (s[0] == "lit" and s[1] == "")]
     return dict(k="line", segs=segs or [["lit", "x"]])
